@@ -117,6 +117,12 @@ class NativeMaster:
         self.wdata_stalls = 0
         self.wdata_taken = []      # (data, wemask) in the order the beats were taken
         self.strobe_semantics = True   # False for stream-style user ports of front-ends (ready without valid is idle)
+        # back-pressure on returned read data (stream-style user ports only): rdata.ready is 1 with this probability each
+        # cycle, and -- like any master that stalls its read channel -- no more reads are kept outstanding than it has room for
+        self.rdata_ready_prob = None
+        self.max_reads_outstanding = None
+        self.rdata_rng = None
+        self.rdata_stalled_with_valid = 0
 
     def idle(self):
         return (self.issued_all or self.stop) and not self.wq and not self.rq and not self._cmd_valid
@@ -131,6 +137,7 @@ class NativeMaster:
         cur = None
         gap = None   # None: load from ops[i] when it exists
         wvalid = 0
+        rready = 1
         yield [port.rdata.ready.eq(1), port.cmd.valid.eq(0), port.wdata.valid.eq(0)]
         yield
         self.cycle = 1
@@ -180,7 +187,9 @@ class NativeMaster:
                     # directly on the crossbar wdata.ready is a strobe: it only fires for an accepted write
                     self.underruns += 1
                     self.violations.append(dict(kind="wdata-strobe-without-pending-write", port=self.idx, cycle=cyc))
-            if rvalid:
+            if rvalid and not rready:
+                self.rdata_stalled_with_valid += 1
+            if rvalid and rready:
                 self.rbeats += 1
                 self.rdata_log.append(rdata)
                 if self.rq:
@@ -216,6 +225,8 @@ class NativeMaster:
                     nxt = ops[i]
                     if nxt.we and self.mode == "strict" and self.wq:
                         pass  # wait until the previous write's data was taken
+                    elif not nxt.we and self.max_reads_outstanding is not None and len(self.rq) >= self.max_reads_outstanding:
+                        pass  # no room reserved for another read word
                     else:
                         cur = nxt
                         cmd_valid = 1
@@ -227,6 +238,11 @@ class NativeMaster:
             if not cmd_valid and self._cmd_valid:
                 stmts.append(port.cmd.valid.eq(0))
             self._cmd_valid = cmd_valid
+            if self.rdata_ready_prob is not None:
+                nrr = 1 if self.rdata_rng.random() < self.rdata_ready_prob else 0
+                if nrr != rready:
+                    stmts.append(port.rdata.ready.eq(nrr))
+                    rready = nrr
             new_wvalid = 1 if self.wq else 0
             if new_wvalid:
                 head = self.wq[0]
